@@ -168,6 +168,7 @@ func checkC17(p *core.Program, r *core.Report) {
 	r.Rule("R2", "operator tables: the operator alternatives of Excellent1.g4 and Excellent3.g4 list the same token groups in the same precedence order; each operator method of the legacy visitor emits, under each token test, the Excellent3 literal of that token; tokens passed through textually have the same literal in both grammars")
 	r.Rule("R3", "no error of the migration is dropped: a call in the package whose error result is discarded while its value is used must have a callee that always returns a nil error")
 	r.Rule("R4", "text literals built by hand escape both meta-characters of the Excellent3 literal reader (the quote and the backslash); strconv.Quote is accepted as is")
+	r.Rule("R6", "the migration is a function of the template and its options: outside init, no function of the expressions package writes a package-level variable — by a store, a map update, or a mutating method of package sync (Map.Store/LoadOrStore/Swap/Delete, Once.Do excepted) called on it; a cache that outlives one call makes the output depend on what was migrated before")
 	r.Rule("R5", "text outside expressions is copied: the template scanner is switched to unescapeBody=false, BODY tokens are written unchanged, and an expression that fails to migrate is re-emitted between the delimiters the scanner stripped")
 	r.Assumption("that each renamed or re-shaped function computes what the legacy function computed is not decided (no specification of the legacy functions is in the tree); argument order inside explicit-index templates is not decided")
 
@@ -202,6 +203,7 @@ func checkC17(p *core.Program, r *core.Report) {
 	c.droppedErrors()
 	c.textLiterals()
 	c.bodyCopied()
+	c.noMutableState()
 
 	if len(c.ev.notes) > 0 {
 		r.Tables["evaluator_notes"] = c.ev.notes
@@ -1602,4 +1604,75 @@ func (c *c17) bodyCopied() {
 	}
 	sort.Strings(lits)
 	c.r.Check(strings.Join(lits, " ") == ") @(", "R5", "migrateLegacyTemplateAsString/failed-expression-re-emitted", c.pos(f), "an expression that fails to migrate is written back as @( token )", "the literal pieces written around an unmigratable expression are "+fmt.Sprint(lits)+", not @( and )")
+}
+
+// ---------------------------------------------------------------------------------------------- R6
+
+func (c *c17) noMutableState() {
+	n := 0
+	globalOf := func(v ssa.Value) *ssa.Global {
+		for k := 0; k < 4; k++ {
+			switch x := v.(type) {
+			case *ssa.Global:
+				return x
+			case *ssa.FieldAddr:
+				v = x.X
+			case *ssa.UnOp:
+				v = x.X
+			case *ssa.IndexAddr:
+				v = x.X
+			default:
+				return nil
+			}
+		}
+		return nil
+	}
+	var fns []*ssa.Function
+	var add func(f *ssa.Function)
+	add = func(f *ssa.Function) {
+		fns = append(fns, f)
+		for _, an := range f.AnonFuncs {
+			add(an)
+		}
+	}
+	for _, f := range c.funcs() {
+		add(f)
+	}
+	for _, f := range fns {
+		root := rootFn(f)
+		if root.Name() == "init" || strings.HasPrefix(root.Name(), "init#") {
+			continue
+		}
+		core.EachInstr(f, false, func(_ *ssa.Function, in ssa.Instruction) {
+			var g *ssa.Global
+			what := ""
+			switch x := in.(type) {
+			case *ssa.Store:
+				if gg := globalOf(x.Addr); gg != nil {
+					g, what = gg, "store"
+				}
+			case *ssa.MapUpdate:
+				if gg := globalOf(x.Map); gg != nil {
+					g, what = gg, "map update"
+				}
+			case ssa.CallInstruction:
+				o := core.CalleeObj(x.Common())
+				if o == nil || o.Pkg() == nil || o.Pkg().Path() != "sync" || len(x.Common().Args) == 0 {
+					return
+				}
+				switch o.Name() {
+				case "Store", "LoadOrStore", "Swap", "Delete", "LoadAndDelete", "CompareAndSwap", "CompareAndDelete", "Clear", "Put":
+					if gg := globalOf(x.Common().Args[0]); gg != nil {
+						g, what = gg, core.ObjName(o)
+					}
+				}
+			}
+			if g == nil || g.Pkg == nil || g.Pkg.Pkg.Path() != c.pkg.Pkg.Path() {
+				return
+			}
+			n++
+			c.r.Bad("R6", core.FuncName(root)+"->"+g.Name(), c.pos(in), "package-level "+g.Name()+" is written ("+what+") while expressions are migrated: what a template migrates to then depends on what this process migrated earlier (for example a cached result keyed by fewer arguments than the function has)")
+		})
+	}
+	c.r.OK("R6", "expressions/no-package-state-written", "flows/definition/legacy/expressions", fmt.Sprintf("%d functions scanned, %d writes to package-level variables outside init", len(fns), n))
 }
